@@ -149,7 +149,8 @@ def run(chk: core.Check) -> int:
         jobs.append({'program': program, 'mix': mix, 'inputs': [list(i) for i in inputs], 'outputs': outputs, 'base': base, 'iterations': iterations, 'workers': workers,
                      'settings': mc.settings_text(inputs, outputs, iterations)})
 
-    plan = [('uniform5', 40, 16), ('uniform5', 7, 2), ('all-kinds', 40, 5), ('one-input', 24, 16), ('half-fail', 30, 5), ('uniform5', 1, 1), ('all-kinds', 9, 1)]
+    plan = [('uniform5', 40, 16), ('uniform5', 7, 2), ('all-kinds', 40, 5), ('one-input', 24, 16), ('half-fail', 30, 5), ('uniform5', 1, 1), ('all-kinds', 9, 1),
+            ('half-fail', 160, 16)]   # >= 8 x CPUs iterations with failures: batching of tasks must not let a failure swallow its neighbours
     if not quick:
         plan += [('uniform5', 300, 16), ('all-kinds', 300, 16), ('half-fail', 120, 16), ('one-input', 100, 3), ('uniform5', 64, 2), ('all-kinds', 50, 2)]
     for mix, it, w in plan:
